@@ -123,6 +123,8 @@ func Check(cfg Config, sources []Source) *Result {
 	}
 	seen := map[vk]bool{}
 	aliasOf := map[ssa.Value][]ssa.Value{}
+	// loads of a private cell that can see a nullable value only on ways on which the cell was tested
+	preGuarded := map[ssa.Value]string{}
 	var work []item
 	push := func(v ssa.Value, src Source, chain []string, note string) {
 		if v == nil {
@@ -154,6 +156,13 @@ func Check(cfg Config, sources []Source) *Result {
 			}
 			facts := flow.FactsAt(b)
 			ev := nonNilAt(v, b, facts, cfg.PairRule)
+			if ev == "" {
+				// a load of a private local cell (a field of a local struct that stands for a local variable)
+				ev = cellEvidence(v, r, facts)
+			}
+			if ev == "" {
+				ev = preGuarded[v]
+			}
 			if ev == "" {
 				// a load of a variable that is assigned once: what is known about the assigned value holds for the load
 				for _, o := range aliasOf[v] {
@@ -192,6 +201,25 @@ func Check(cfg Config, sources []Source) *Result {
 				if u.Addr == v {
 					fault("store through nil pointer")
 				} else if u.Val == v {
+					// a field of a local struct that is only read and written in place is a local variable too: the
+					// loads that this store can reach become nullable; those that it reaches only past a nil test of
+					// the cell are examined as guarded
+					if k, isCell := privCellOf(u.Addr); isCell && ev == "" {
+						null := reachedLoads(u, k, true)
+						for _, ld := range sortedLoads(reachedLoads(u, k, false)) {
+							if !null[ld] {
+								if _, already := preGuarded[ld]; !already {
+									preGuarded[ld] = "nil test of the variable on every way from its assignment"
+								}
+							} else {
+								if preGuarded[ld] != "" {
+									delete(seen, vk{ld, it.src.Label}) // examined as guarded before: examine again
+								}
+								preGuarded[ld] = ""
+							}
+							push(ld, it.src, it.chain, "via field of local variable "+k.al.Comment)
+						}
+					}
 					// local variable cell: loads become nullable
 					if al, ok := u.Addr.(*ssa.Alloc); ok && ev == "" {
 						nstores := 0
@@ -469,5 +497,226 @@ func FieldLoads(fns []*ssa.Function, pkgPath, typ, field string) []ssa.Value {
 			}
 		})
 	}
+	return out
+}
+
+// ---- private cells: fields of a local struct that stand for local variables -------------------------------
+
+type cellKey struct {
+	al    *ssa.Alloc
+	field int
+}
+
+// privCellOf: addr is the address of a field of a local struct whose address is used for nothing but field loads
+// and stores in place (`var run struct{exe *Execution; err error}` with run.exe read and written): a local variable
+// that go/ssa could not lift to a register.
+func privCellOf(addr ssa.Value) (cellKey, bool) {
+	fa, ok := addr.(*ssa.FieldAddr)
+	if !ok {
+		return cellKey{}, false
+	}
+	al, ok := fa.X.(*ssa.Alloc)
+	if !ok {
+		return cellKey{}, false
+	}
+	for _, r := range ssau.Referrers(al) {
+		switch y := r.(type) {
+		case *ssa.DebugRef:
+		case *ssa.FieldAddr:
+			for _, r2 := range ssau.Referrers(y) {
+				switch z := r2.(type) {
+				case *ssa.DebugRef:
+				case *ssa.UnOp:
+					if z.Op != token.MUL {
+						return cellKey{}, false
+					}
+				case *ssa.Store:
+					if z.Addr != ssa.Value(y) || z.Val == ssa.Value(y) {
+						return cellKey{}, false
+					}
+				default:
+					return cellKey{}, false
+				}
+			}
+		default:
+			return cellKey{}, false
+		}
+	}
+	return cellKey{al, fa.Field}, true
+}
+
+// cellOfLoad: v is a load of a private cell.
+func cellOfLoad(v ssa.Value) (cellKey, bool) {
+	ld, ok := v.(*ssa.UnOp)
+	if !ok || ld.Op != token.MUL {
+		return cellKey{}, false
+	}
+	return privCellOf(ld.X)
+}
+
+func (k cellKey) isStore(in ssa.Instruction) bool {
+	st, ok := in.(*ssa.Store)
+	if !ok {
+		return false
+	}
+	fa, ok := st.Addr.(*ssa.FieldAddr)
+	return ok && fa.X == ssa.Value(k.al) && fa.Field == k.field
+}
+
+func (k cellKey) isLoad(in ssa.Instruction) (*ssa.UnOp, bool) {
+	ld, ok := in.(*ssa.UnOp)
+	if !ok || ld.Op != token.MUL {
+		return nil, false
+	}
+	fa, ok := ld.X.(*ssa.FieldAddr)
+	return ld, ok && fa.X == ssa.Value(k.al) && fa.Field == k.field
+}
+
+func (k cellKey) stores() []*ssa.Store {
+	var out []*ssa.Store
+	for _, r := range ssau.Referrers(k.al) {
+		if fa, ok := r.(*ssa.FieldAddr); ok && fa.Field == k.field {
+			for _, r2 := range ssau.Referrers(fa) {
+				if st, isSt := r2.(*ssa.Store); isSt {
+					out = append(out, st)
+				}
+			}
+		}
+	}
+	return out
+}
+
+// mayPrecede: instruction a can be executed before instruction b in one activation.
+func mayPrecede(a, b ssa.Instruction) bool {
+	if a.Block() == b.Block() && flow.Index(a) < flow.Index(b) {
+		return true
+	}
+	for _, s := range a.Block().Succs {
+		if flow.Reachable(s, b.Block(), nil) {
+			return true
+		}
+	}
+	return false
+}
+
+// unchangedBetween: no store into the cell can be executed after `from` and before `to`.
+func (k cellKey) unchangedBetween(from, to ssa.Instruction) bool {
+	for _, st := range k.stores() {
+		if mayPrecede(from, st) && mayPrecede(st, to) {
+			return false
+		}
+	}
+	return true
+}
+
+// provenBy: one of the facts says that the cell is not nil: a nil test of a load of the cell, with no store into the
+// cell between that load and `at`.
+func (k cellKey) provenBy(facts []flow.Fact, at ssa.Instruction) bool {
+	for _, f := range facts {
+		bo, ok := f.Cond.(*ssa.BinOp)
+		if !ok || (bo.Op != token.EQL && bo.Op != token.NEQ) {
+			continue
+		}
+		x, y := bo.X, bo.Y
+		if ssau.IsNilConst(x) {
+			x, y = y, x
+		}
+		if !ssau.IsNilConst(y) || (bo.Op == token.NEQ) != f.True {
+			continue
+		}
+		xk, isCell := cellOfLoad(x)
+		if !isCell || xk != k {
+			continue
+		}
+		if k.unchangedBetween(x.(ssa.Instruction), at) {
+			return true
+		}
+	}
+	return false
+}
+
+// cellEvidence: v is a load of a private cell and the facts at the use r hold a nil test of (another load of) the
+// cell that no store separates from the use.
+func cellEvidence(v ssa.Value, r ssa.Instruction, facts []flow.Fact) string {
+	k, ok := cellOfLoad(v)
+	if !ok {
+		return ""
+	}
+	// the tested load and v must see the same value: nothing is stored between the tested load and v, nor up to r
+	for _, f := range facts {
+		if k.provenBy([]flow.Fact{f}, v.(ssa.Instruction)) && k.provenBy([]flow.Fact{f}, r) {
+			return "nil test of the variable"
+		}
+	}
+	return ""
+}
+
+// reachedLoads: the loads of the cell that can see what store st put there: reached from st on a way that passes
+// no other store into the cell and — with prune — no branch edge on which the cell is known not to be nil.
+func reachedLoads(st *ssa.Store, k cellKey, prune bool) map[*ssa.UnOp]bool {
+	out := map[*ssa.UnOp]bool{}
+	seen := map[*ssa.BasicBlock]bool{}
+	var stack []*ssa.BasicBlock
+	leave := func(b *ssa.BasicBlock) {
+		for _, s := range b.Succs {
+			if prune && len(b.Instrs) > 0 && k.provenBy(flow.EdgeFacts(b, s), b.Instrs[len(b.Instrs)-1]) {
+				continue
+			}
+			stack = append(stack, s)
+		}
+	}
+	// the rest of the store's own block
+	past, killed := false, false
+	for _, in := range st.Block().Instrs {
+		if in == ssa.Instruction(st) {
+			past = true
+			continue
+		}
+		if !past {
+			continue
+		}
+		if ld, ok := k.isLoad(in); ok {
+			out[ld] = true
+		}
+		if k.isStore(in) {
+			killed = true
+			break
+		}
+	}
+	if !killed {
+		leave(st.Block())
+	}
+	for len(stack) > 0 {
+		b := stack[len(stack)-1]
+		stack = stack[:len(stack)-1]
+		if seen[b] {
+			continue
+		}
+		seen[b] = true
+		killed := false
+		for _, in := range b.Instrs {
+			if ld, ok := k.isLoad(in); ok {
+				out[ld] = true
+			}
+			if k.isStore(in) {
+				killed = true
+				break
+			}
+		}
+		if !killed {
+			leave(b)
+		}
+	}
+	return out
+}
+
+func sortedLoads(m map[*ssa.UnOp]bool) []*ssa.UnOp {
+	var out []*ssa.UnOp
+	for ld := range m {
+		out = append(out, ld)
+	}
+	sort.Slice(out, func(i, j int) bool {
+		return out[i].Pos() < out[j].Pos() || (out[i].Pos() == out[j].Pos() && out[i].Name() < out[j].Name())
+	})
 	return out
 }
